@@ -70,7 +70,11 @@ def mk_case(cid, w, js, clean, recognised, rng, origin="tlc"):
     glued = [k < len(js) and js[k] == "NONE" for k in range(len(w))]
     text = spell(w[0]["kind"], w[0]["class"], dirs[0], rng, glued[0])
     for k, (j, c, d) in enumerate(zip(js, w[1:], dirs[1:]), start=1):
-        text += JOIN[j] + spell(c["kind"], c["class"], d, rng, glued[k])
+        jt = JOIN[j]
+        if j != "NONE" and rng.random() < 0.12:
+            # a description wraps anywhere: the blank of a joiner may be a line break (or a tab)
+            jt = jt[:-1] + rng.choice(["\n", "\n", "\r\n", "\t"])
+        text += jt + spell(c["kind"], c["class"], d, rng, glued[k])
     canon = "".join(d + ("½" if c["kind"] == "H" else "¼") for c, d in zip(w, dirs))
     return {"id": cid, "kind": "c07", "origin": origin,
             "abs": {"w": w, "js": list(js), "clean": bool(clean), "dirs": dirs},
